@@ -1523,6 +1523,9 @@ def _find_loads_without_stores_in_code(co, loads_without_stores):
     # endif
     LOAD_GLOBAL  = opmap['LOAD_GLOBAL']
     LOAD_NAME    = opmap['LOAD_NAME']
+    # Python 3.12+: a global read from an annotation scope (PEP 695) that is
+    # nested in a class body.
+    LOAD_FROM_DICT_OR_GLOBALS = opmap.get('LOAD_FROM_DICT_OR_GLOBALS', -1)
     STORE_ATTR   = opmap['STORE_ATTR']
     STORE_GLOBAL = opmap['STORE_GLOBAL']
     STORE_NAME   = opmap['STORE_NAME']
@@ -1692,7 +1695,7 @@ def _find_loads_without_stores_in_code(co, loads_without_stores):
             # >> 0 does nothing
             pending = [co.co_names[oparg >> LOAD_SHIFT]]
             continue
-        if op is LOAD_NAME:
+        if op == LOAD_NAME or op == LOAD_FROM_DICT_OR_GLOBALS:
             pending = [co.co_names[oparg]]
             continue
 
